@@ -560,6 +560,8 @@ func runC05(c *Ctx) {
 	}
 	runC05More(c)
 	runC05NoErrAssert(c)
+	runC05Round3(c)
+	shareRule(c, "C03", runC03, []string{"C03.R6"}, "R12", "PAIR", "a shutdown-classified error of one part of a split request survives the completion aggregation (same rule as C03.R6), so the persistent queue keeps the request", 3)
 }
 
 // runC05More: R7 the retry sender is stopped by every shutdown (shared with C03.R1), R8 error classifiers search
